@@ -439,7 +439,11 @@ ocp.set_der(v, a)
             v_expressions[self.symbol_map[i][0]][self.symbol_map[i][1]] = pool[i]
 
         v_active_symbols = [self.v_symbols[e] for e in active_symbols]
-        v_active_expressions = [ca.vcat(v_expressions[i]) for i in active_symbols]
+        v_active_expressions = []
+        for i in active_symbols:
+            # Components that the expression does not depend on: zeros of the width of the sampled ones
+            width = [ca.MX(e).shape[1] for e in v_expressions[i] if not isinstance(e, int)][0]
+            v_active_expressions.append(ca.vcat([ca.DM.zeros(1, width) if isinstance(e, int) else e for e in v_expressions[i]]))
 
         return v_active_symbols, v_active_expressions
 
